@@ -383,7 +383,7 @@ func ruleE15(c *Ctx) {
 // ---------- G1: an unassigned global slot never leaves the module as a value ----------
 
 func init() {
-	register("G1", "nil marks an unassigned global and stays inside: the slots of a module's globals array are nil until the variable is assigned. Every read of a slot (also through a local copy of the slice) is either compared with nil, or used only where a test on the path has excluded nil - the interpreter turns nil into 'referenced before assignment', the exported views (Globals(), the REPL's write-back) skip it. A nil that is copied into a StringDict makes Has() answer true for a name that was never assigned: the next REPL chunk is resolved against a phantom global and fails at run time, after its side effects, where it should have been rejected", 3, ruleG1)
+	register("G1", "nil marks an unassigned global and stays inside: the slots of a module's globals array are nil until the variable is assigned. Every read of a slot (also through a local copy of the slice) is either compared with nil, or used only where a test on the path has excluded nil - the interpreter turns nil into 'referenced before assignment', the exported views (Globals(), the REPL's write-back) skip it. A nil that is copied into a StringDict makes Has() answer true for a name that was never assigned: the next REPL chunk is resolved against a phantom global and fails at run time, after its side effects, where it should have been rejected", 2, ruleG1)
 	claim("C09", "G1")
 	claim("C01", "G1")
 }
@@ -758,7 +758,7 @@ func ruleJ11(c *Ctx) {
 			}
 			body := deferredBody(d)
 			mc, _ := d.Call.Value.(*ssa.MakeClosure)
-			if body == nil || mc == nil {
+			if body == nil {
 				return
 			}
 			recovers := false
@@ -770,9 +770,19 @@ func ruleJ11(c *Ctx) {
 					}
 				}
 				if st, ok := in2.(*ssa.Store); ok {
-					if fv, ok := st.Addr.(*ssa.FreeVar); ok {
+					if fv, ok := st.Addr.(*ssa.FreeVar); ok && mc != nil {
 						if al, ok := freeVarBinding(mc, fv).(*ssa.Alloc); ok {
 							writes = append(writes, al)
+						}
+					}
+					// a named function handed the addresses of the results: defer h(&v, &err)
+					if prm, ok := st.Addr.(*ssa.Parameter); ok && mc == nil {
+						for pi, q := range body.Params {
+							if q == prm && pi < len(d.Call.Args) {
+								if al, ok := d.Call.Args[pi].(*ssa.Alloc); ok {
+									writes = append(writes, al)
+								}
+							}
 						}
 					}
 				}
@@ -899,6 +909,18 @@ func ruleM6(c *Ctx) {
 		for _, p := range fn.Params {
 			if hasIterate(p.Type()) {
 				srcs = append(srcs, p)
+				continue
+			}
+			// a small struct that carries the iterable (the closure turned into a method)
+			if st, ok := deref(p.Type()).Underlying().(*types.Struct); ok {
+				for i := 0; i < st.NumFields(); i++ {
+					if hasIterate(st.Field(i).Type()) && relPkg(fnPkgPath(fn)) == "starlark" {
+						if _, isN := deref(p.Type()).(*types.Named); isN && !isNamed(deref(p.Type()), "starlark", "Thread") {
+							srcs = append(srcs, p)
+							break
+						}
+					}
+				}
 			}
 		}
 		for _, fv := range fn.FreeVars {
@@ -2186,16 +2208,46 @@ func ruleO21(c *Ctx) {
 		if bt, ok := res.At(0).Type().Underlying().(*types.Basic); !ok || bt.Kind() != types.Bool {
 			continue
 		}
-		writesLocals := false
+		// creates a Binding and does not look at the table of globals itself
+		makesBinding, touchesGlobals := false, false
 		eachInstr(fn, func(in ssa.Instruction) {
+			if al, ok := in.(*ssa.Alloc); ok && al.Heap && isNamed(deref(al.Type()), "resolve", "Binding") {
+				makesBinding = true
+			}
 			if fa, ok := in.(*ssa.FieldAddr); ok {
-				name := deref(fa.X.Type()).Underlying().(*types.Struct).Field(fa.Field).Name()
-				if name == "moduleLocals" || name == "Locals" {
-					writesLocals = true
+				if isNamed(deref(fa.X.Type()), "resolve", "resolver") && deref(fa.X.Type()).Underlying().(*types.Struct).Field(fa.Field).Name() == "globals" {
+					touchesGlobals = true
 				}
 			}
 		})
-		if writesLocals {
+		if !makesBinding && !touchesGlobals {
+			// ... or leaves the creation to a helper (declareLocal) that does
+			eachInstr(fn, func(in ssa.Instruction) {
+				call, ok := in.(*ssa.Call)
+				if !ok {
+					return
+				}
+				cal := call.Call.StaticCallee()
+				if cal == nil || relPkg(fnPkgPath(cal)) != "resolve" || len(cal.Blocks) == 0 {
+					return
+				}
+				hm, hg := false, false
+				eachInstr(cal, func(in2 ssa.Instruction) {
+					if al, ok := in2.(*ssa.Alloc); ok && al.Heap && isNamed(deref(al.Type()), "resolve", "Binding") {
+						hm = true
+					}
+					if fa, ok := in2.(*ssa.FieldAddr); ok {
+						if isNamed(deref(fa.X.Type()), "resolve", "resolver") && deref(fa.X.Type()).Underlying().(*types.Struct).Field(fa.Field).Name() == "globals" {
+							hg = true
+						}
+					}
+				})
+				if hm && !hg {
+					makesBinding = true
+				}
+			})
+		}
+		if makesBinding && !touchesGlobals {
 			bl = fn
 		}
 	}
